@@ -1,4 +1,6 @@
+pub mod c01;
 pub mod c03;
+pub mod c04;
 
 use crate::report::{Finish, Job};
 
@@ -15,7 +17,9 @@ pub struct Plan {
 
 pub fn plan(prop: &str, tier: Tier) -> Option<Plan> {
   match prop {
+    "C01" => Some(c01::plan(tier)),
     "C03" => Some(c03::plan(tier)),
+    "C04" => Some(c04::plan(tier)),
     _ => None,
   }
 }
